@@ -21,6 +21,8 @@ fn main() {
     let id = args[1].clone();
     let root = PathBuf::from(arg(&args, "--root").unwrap_or_else(|| "/verif".into()));
     install_panic_hook(root.clone());
+    // a process that has used the named constructors before anything else (whatever they initialise once is initialised)
+    let _ = (owlchess::Board::initial().zobrist_hash(), owlchess::RawBoard::initial(), owlchess::MoveChain::new_initial().len(), owlchess::RawBoard::empty());
     let tier = match arg(&args, "--tier").as_deref() {
         Some("thorough") => Tier::Thorough,
         _ => Tier::Quick,
